@@ -56,6 +56,9 @@ CLAIMED = {
  "C15": ("dominance + constant/size reasoning on every narrowing conversion of a parsed number (both amd64 and 386 type sizes) + error-propagation + writer/reader sibling agreement (go/ssa, go/types sizes)",
          "Decides the no-wrap clause completely: every conversion of a parsed number to a narrower or differently-signed type is discharged by the strconv bit size (constant <= result width, or unsafe.Sizeof of the same type parameter) or by a dominating reflect Overflow* test on reflect.Zero of the type whose kind selected the arm, with arm kind == result kind. Also: base 0 / trimming arguments, every strconv/scanner/Unquote/callback error reaches the caller, writers and readers agree on quoting, separators and signedness of integer formatting, duplicate keys are rejected before storing.",
          "Not decided: parse(format(v)) == v for all values and strings (a law over runtime strings). Trusted: strconv, reflect Overflow*, text/scanner."),
+ "C12": ("who-may-call (Visit vs VisitAll) + universally-quantified reaching-condition check of the visit callback + def-use provenance of every registration default + kind-arm/type sibling table + dominance of the overflow helper (go/ssa)",
+         "Decides for both flag packages: exactly one Visit and no VisitAll; the visit callback returns without writing only for an unknown name or unreadable value; Value reverse-translates the registration-time all-unset struct with its transformer; every registration's default derives from transform.GetField(sf, tmpl); in each kind arm Convert target, asserted type and arm kind agree; (std flag) the narrowing reflect conversion is dominated by willOverflow==false whose arms cover all int/uint/float/complex kinds with the matching Overflow method and an overflow is returned as the error; helper Sets accumulate after the first set; source-specific tag precedence.",
+         "Not decided: flag-name strings and parsed values. Noted, not alarmed: pflag registers a 64-bit flag for uintptr without a range check (only matters on 32-bit targets)."),
 }
 
 NOT_YET = {}
